@@ -44,7 +44,7 @@ pub open spec fn one_sided_spec(tick_lower_index: i32, tick_upper_index: i32, ti
             else { r == Ok::<(i32, i32), Error>((tick_lower_index, u as i32)) && u % s == 0 && price_at(u) <= p && (tick_ok(u + s) ==> price_at(u + s) > p) }
         }
 }
-//@ fn util/shared.rs resolve_one_sided_position_ticks -> r pub
+//@ fn util/shared.rs resolve_one_sided_position_ticks -> r pub canary
     requires tick_spacing > 0, price_ok(current_sqrt_price as int),
     ensures one_sided_spec(tick_lower_index, tick_upper_index, tick_spacing, current_sqrt_price, r),
 //@ rewrite /let snap_tick_down = \|t: i32\| -> i32 \{/ => /let snap_tick_down = |t: i32| -> (o: i32) requires -500_000 <= t <= 500_000, 0 < tick_spacing_i32 <= 65535, ensures o as int == snap_down(t as int, tick_spacing_i32 as int), {/
